@@ -82,3 +82,8 @@ Fixpoint serial (l : list bool) : bool :=
 Definition premise_ilv (c : rcase) : bool :=
   negb (serial (firstn 7 (rc_sched c))) &&
   removes (ilv_remover (rc_kind c)) (ilv_target (rc_kind c)) (ilv_state (rc_kind c)).
+
+(* C06 on the same runs: complete release. Once the identifier (pid / registered name / alias / event) is gone
+   - its owner terminated or released it - no link or monitor relation naming it is left in the target manager,
+   however the request of the other party interleaved with the release *)
+Definition spec_ilv_release (c : rcase) : bool := negb (rc_gone c && rc_rel c).
